@@ -4,7 +4,7 @@ PROP=$1; N=${2:-2000}; V=${3:-plain}
 EXE=$(ls -td /verif/build/$V-*/simc3d | head -1)
 T=$(mktemp -d)
 for j in $(seq 0 15); do
-  ( timeout 600 $EXE worker --prop $PROP --tier ${TIER:-quick} --seed ${VERIF_SEED:-1} --from 0 --count $N --offset $j --stride 16 > $T/out.$j 2>&1 ) &
+  ( timeout ${SURVEY_TIMEOUT:-600} $EXE worker --prop $PROP --tier ${TIER:-quick} --seed ${VERIF_SEED:-1} --from 0 --count $N --offset $j --stride 16 > $T/out.$j 2>&1 ) &
 done
 wait
 cat $T/out.* | grep -c '^RES' | sed 's/^/cases: /'
